@@ -433,6 +433,8 @@ def finish(run: Run, evidence_path: str, checker_cmd: str) -> int:
     # ---- verdicts ----------------------------------------------------------------------------------
     for name, (st, vs) in sorted(agg.items()):
         kind = name.split('::')[1] if '::' in name else name
+        if kind.startswith('cover.body') and st != 'discharged':
+            run.errors.append(f'{name}: no path reaches the end of the loop body under its invariant ({st}) -- the body obligations hold vacuously')
         if kind.startswith('canary') or kind.startswith('cover'):
             continue
         if st == 'discharged':
